@@ -110,7 +110,7 @@ CLAIMS = {
          "Modules where an alignment pattern lies on a timing line may carry either label (ISO assigns them to both)."),
  "C16": ("All 40 sizes x 2 / 6 symbols plus hand-made matrices: line count, line width, alphabet, one-module light border, and every module decoded back in place from the (top, bottom) reading; what QRCode::print writes to the process' standard output - captured through a redirected file descriptor and through a pseudo-terminal - must be that rendering and a line terminator; MC: decode o render = id on all 512 3x3 matrices for the model's renderer.",
          "The upper half of the first line is outside the picture and unconstrained."),
- "C17": ("wasm.rs compiled on the host through a guarded #[path] module. TLC exports every setter program over a 36-call alphabet (well-formed and malformed values) up to length 2 / 3; each is replayed under catch_unwind; the export must be empty exactly when the specification says the content cannot be encoded, equal to the native output (string equality when no malformed value is involved, field by field modulo havoc registers otherwise), and the native settings used for comparison must be the model's NativeOf(W_After(program)).",
+ "C17": ("wasm.rs compiled on the host through a guarded #[path] module. TLC exports every setter program over a 36-call alphabet (well-formed and malformed values) up to length 2 / 3; each is replayed under catch_unwind; the export must be empty exactly when the specification says the content cannot be encoded, equal to the native output (string equality when no malformed value is involved, field by field modulo havoc registers otherwise), and the native settings used for comparison must be the model's NativeOf(W_After(program)). Beyond the exported programs: 600 / 4 000 random longer programs, every version x level, every shape x frame shape, margins 0..20 and up to 1 000, an image size x gap x position grid (zero, fractional, oversized values), the capacity thresholds of version 40 (cap - 1, cap, cap + 1 per level and mode), contents drawn by Unicode category, and the matrix export for about 100 contents.",
          "Needs the hook tier (exit 2 without it). A malformed value leaves its register unspecified in the model."),
  "C18": ("Default frames for all 40 versions x 3 shapes x margins 0..16 (and 17, 33, 64, 120) (one event per (shape, margin) holding all versions: centred, module-aligned, below 40%, clear of the finder boxes, image centred and not larger, side monotone in the version); 420 / 6 000 explicit size / gap / position overrides on quarter-module and arbitrary 3-decimal values with tolerances derived from the two-decimal printing, a quarter of them drawn from the whole legal range (images from 0.01 module to three times the drawing, gaps up to a symbol side, positions anywhere and slightly outside); through the raster builder: explicit size, gap and position (x different from y) decide which cells show the frame colour.",
          "Overrides are sampled."),
